@@ -70,6 +70,37 @@ def harness_hash():
     return _hash_cache["h"]
 
 
+_INC_RE = re.compile(r'^\s*#\s*include\s+"([^"]+)"', re.M)
+_dep_cache = {}
+
+
+def harness_deps_hash(source):
+    """hash of the harness headers a TU (transitively) includes through quoted includes"""
+    seen = {}
+    todo = [(None, source)]
+    while todo:
+        base, text = todo.pop()
+        for inc in _INC_RE.findall(text):
+            cands = [os.path.join(HARNESS, inc)]
+            if base:
+                cands.insert(0, os.path.join(os.path.dirname(base), inc))
+            for c in cands:
+                c = os.path.normpath(c)
+                if os.path.isfile(c):
+                    if c not in seen:
+                        if c not in _dep_cache:
+                            with open(c) as f:
+                                _dep_cache[c] = f.read()
+                        seen[c] = _dep_cache[c]
+                        todo.append((c, seen[c]))
+                    break
+    h = hashlib.sha256()
+    for k in sorted(seen):
+        h.update(k.encode())
+        h.update(seen[k].encode())
+    return h.hexdigest()
+
+
 class BuildError(Exception):
     pass
 
@@ -91,7 +122,7 @@ def build_one(name, source, std="c++17", compiler="g++", san="asan", extra=(), o
     elif san == "none":
         pass
     cmd += ["-std=" + std, "-I" + INC, "-I" + HARNESS] + list(extra)
-    key = hashlib.sha256((inc_hash() + harness_hash() + source + " ".join(cmd)).encode()).hexdigest()[:24]
+    key = hashlib.sha256((inc_hash() + harness_deps_hash(source) + source + " ".join(cmd)).encode()).hexdigest()[:24]
     os.makedirs(BIN, exist_ok=True)
     out = os.path.join(BIN, "%s-%s" % (re.sub(r"[^A-Za-z0-9_.-]", "_", name), key))
     if os.path.exists(out):
